@@ -158,8 +158,10 @@ class BaseTransform(ABC):
         """
         if not isinstance(oned_grid, OneDGrid):
             raise TypeError(f"Input grid is not OneDGrid, got {type(oned_grid)}")
-        # check domain
-        if oned_grid.domain[0] < self.domain[0] or oned_grid.domain[1] > self.domain[1]:
+        # check domain (a OneDGrid may be built without one: the branch below keeps None)
+        if oned_grid.domain is not None and (
+            oned_grid.domain[0] < self.domain[0] or oned_grid.domain[1] > self.domain[1]
+        ):
             raise ValueError(
                 "Given 1D grid domain does not match the transformation domain.\n"
                 f"grid domain: {oned_grid.domain}, tf domain: {self.domain}"
